@@ -549,6 +549,18 @@ func judgeC03(ex *execution, e *Expect, out *Verdict) {
 		out.Fail = "spec from the combined adjustment differs from applying each plugin's adjustment in turn: " + d
 		return
 	}
+	// mounts are applied in the order of the list: the two lists must agree in order too
+	mountOrder := func(s *rspec.Spec) string {
+		var d []string
+		for _, m := range s.Mounts {
+			d = append(d, m.Destination)
+		}
+		return fmt.Sprintf("%q", d)
+	}
+	if a, b := mountOrder(lhs), mountOrder(rhs); a != b {
+		out.Fail = "spec from the combined adjustment differs from applying each plugin's adjustment in turn: order of the mounts " + a + " versus " + b
+		return
+	}
 	if e.SpellingMix {
 		out.Classes = []string{"spelling_mix_differential_only"}
 		out.NonTrivial = e.Contrib >= 2
